@@ -453,11 +453,15 @@ def judge_fake(ctx, w, exps, lm, label):
         if any_lookalike:
             mech = 'channel-header-lookalike-noise'
         elif any_glued and (pv['verdict'] is True or glued_skip_lost(
-                pv, exps, ran, want_f, want_e, skipped)):
+                pv, exps, ran, want_f, want_e, skipped) or (
+                    mech == 'channel-totals-differ' and
+                    pv['total'][1:3] == (len(want_f), len(want_e)))):
             # the first line of the report is glued to the partial line and
             # no longer parses: either the header ('Could not communicate'
             # for a complete run) or the 'skipped N' line in front of it
-            # (that layer's skipped count is lost, everything else right)
+            # (that layer's skipped count is lost, everything else right);
+            # a partial line that ends in digits changes the number it is
+            # glued to ("12" + "26 0 0": 1226 tests ran)
             mech = 'channel-unterminated-noise-glued-to-header'
         elif any_cr:
             mech = 'channel-name-with-carriage-return'
